@@ -156,4 +156,12 @@ CHECKS["C07"] = dict(
            dict(name="random", run="^TestRandomCloseCancel$", quick=200, thorough=12000, shards_thorough=4)],
 )
 
+CHECKS["C06"] = dict(
+    pkg="c06", race=True, level="exploration", timeout_quick=900, timeout_thorough=3000,
+    technique="property-based testing (rapid) of Router shutdown scenarios with forced schedules: the subject message is parked at a generated point of its path (hook points / handler gate / emitted inside the subscriber's Close) while 1..8 callers invoke Close; state sampled synchronously at every Close return and at Run's return",
+    level_text="Generated shutdown scenarios over handler sets, CloseTimeouts, caller counts, path points and release delays run against a real Router with scripted subscribers/publishers (and a GoChannel variant). Handler progress and settlement of every emitted message are sampled in the calling goroutine at the instant each Close call returns, at Run's return and after a 50 ms window, and compared with the graceful-close contract; time-outs must surface as an error in time.",
+    level_note="Trusted: the hook controller, synchronous sampling in the caller goroutine, scripted Pub/Subs. The path points are those instrumented; schedules between un-instrumented instructions are reached only by noise. 10 s liveness bounds re-confirmed once.",
+    steps=[dict(name="close", run="^TestGracefulClose$", quick=160, thorough=6000, shards_thorough=16)],
+)
+
 NOT_APPLICABLE = {}
